@@ -25,7 +25,10 @@ KINDS = ('dash', 'slash', 'block', 'block1', 'mblock')
 
 def plan(tier, seed):
     n = 12 if tier == 'quick' else 48
-    return [{'count': 140 if tier == 'quick' else 800} for _ in range(n)]
+    specs = [{'count': 140 if tier == 'quick' else 800} for _ in range(n)]
+    specs.append({'kind': 'limit', 'margins': [0, 1, 7] if tier == 'quick' else [0, 1, 2, 7, 19, 40]})
+    specs.append({'kind': 'limit', 'margins': ['hdr-1', 'hdr', 'hdr+1'] if tier == 'quick' else ['hdr-2', 'hdr-1', 'hdr', 'hdr+1', 'hdr+30']})
+    return specs
 
 
 def make_comment(rng, kind):
@@ -174,8 +177,37 @@ def check_one(ctx, src, scopes, config, case):
         ctx.violation('code/comment confusion: ' + problem[1], case)
 
 
+def run_limit(spec, ctx):
+    """Carts at PICO-8's 65535-character limit: the minified code alone is `margin` characters below the limit, so that code plus
+    the two header comments is over it (or exactly at it); the header still has to come out first."""
+    rng = ctx.rng
+    for mi, margin in enumerate(spec['margins']):
+        header = (b'-- my game\n-- by me\n', b'--t\n//b\n', b'--[[ title ]]\n-- author name here\n')[mi % 3]
+        body_tail = b'\nfunction _draw() print(data) end\n'
+        def source(n):
+            return header + b'data="' + b'a' * n + b'"' + body_tail
+        try:
+            probe = minify.minify_lib(source(1000), 'default')[1]
+        except Exception as e:
+            ctx.violation('luamin raised %r' % (e,), {'src': source(10), 'config': 'default', 'scopes': []})
+            return
+        code_len = len(probe) - len(header) - 1000        # minified size of everything but the header and the string body
+        m = len(header) + int(margin[3:] or 0) if isinstance(margin, str) else margin
+        n = 65535 - m - code_len
+        src = source(n)
+        ctx.feature('limit_cases')
+        ctx.feature('code_plus_header_over_65535' if m < len(header) else 'code_plus_header_within_65535')
+        config = ('default', 'keep_all', 'cli')[mi % 3]
+        check_one(ctx, src, [], config, {'src': src, 'config': config, 'scopes': []})
+        ctx.monitor('limit_minified_code_chars', 65535 - m)
+    ctx.sample({'limit': 'header + data="aaa..." sized so that the minified code alone is margin characters under 65535'})
+
+
 def run_shard(spec, ctx):
     rng = ctx.rng
+    if spec.get('kind') == 'limit':
+        run_limit(spec, ctx)
+        return
     for i in range(spec['count']):
         crlf = rng.random() < 0.15
         nl = b'\r\n' if crlf else b'\n'
@@ -224,6 +256,9 @@ def gates(m, tier):
     for c in ('default', 'keep_all', 'keep_file', 'cli', 'cli_keep_file'):
         if f.get('config:' + c, 0) < 20:
             missed.append('configuration %s: %d' % (c, f.get('config:' + c, 0)))
+    if f.get('code_plus_header_over_65535', 0) < 3 or f.get('code_plus_header_within_65535', 0) < 1:
+        missed.append('carts at the character limit: over %d, within %d' % (f.get('code_plus_header_over_65535', 0),
+                                                                           f.get('code_plus_header_within_65535', 0)))
     if mon.get('titles_compared', 0) < 200:
         missed.append('titles compared: %d' % mon.get('titles_compared', 0))
     return missed
